@@ -913,6 +913,7 @@ func fromWireBig(v interface{}) interface{} {
 }
 
 // mode: "int" | "json" (all numbers as float64), optionally followed by "+nil" (nulls as exotic nullish Go values)
+// and/or "+ts" (lists as typed Go slices, see goValueT)
 func goValue(wire interface{}, mode string) interface{} {
 	v := fromWireBig(wire)
 	if strings.HasPrefix(mode, "json") {
@@ -921,13 +922,24 @@ func goValue(wire interface{}, mode string) interface{} {
 	return v
 }
 
-// goValueT additionally applies the "+nil" mode, directed by the declared type
+// typedSlicesMade counts the lists handed to the library as typed Go slices so far (mode "+ts")
+var typedSlicesMade int
+
+// goValueT additionally applies the "+nil" mode and the "+ts" mode (gq.SliceTyper: lists at list-typed positions as
+// typed Go slices []string, []int, [][]int, []map[string]interface{}, … as a Go caller builds them; same logical
+// value, so the model's input is unchanged), both directed by the declared type
 func goValueT(s *gq.SchemaDesc, typ string, wire interface{}, mode string) interface{} {
 	v := goValue(wire, mode)
-	if strings.HasSuffix(mode, "+nil") {
+	if strings.Contains(mode, "+nil") {
 		te, _ := gq.ParseType(typ)
 		n := 0
 		v = exoticNils(s, te, v, &n)
+	}
+	if strings.Contains(mode, "+ts") {
+		te, _ := gq.ParseType(typ)
+		st := &gq.SliceTyper{S: s}
+		v = st.Typed(te, v)
+		typedSlicesMade += st.Made
 	}
 	return v
 }
